@@ -4,9 +4,11 @@
 
     The source is a byte string plus a flag: did the reader end with an error
     other than io.EOF (connection cut, short body)?  The destination always
-    accepts writes (a full disk is outside the property).  CRC-32 is a
-    parameter of the parser functions; [crc32_update] is the bit-exact
-    IEEE CRC the evaluator uses. *)
+    accepts writes in [process] / [parse]; [process_w] / [parse_w] are the
+    same code against a destination that takes [cap] bytes in all and then
+    fails (full disk, quota, file-size limit).  CRC-32 is a parameter of the
+    parser functions; [crc32_update] is the bit-exact IEEE CRC the evaluator
+    uses. *)
 From Coq Require Import NArith List Bool.
 From AGH Require Import Base.Run.
 Import ListNotations.
@@ -114,7 +116,7 @@ Definition title_of (t : bytes) : option bytes :=
   end.
 
 (** ** The parser *)
-Inductive perr := EHtml | EBinary | ETooLong | ERead.
+Inductive perr := EHtml | EBinary | ETooLong | ERead | EWrite.
 
 Record pstate := {
   p_title : bytes;
@@ -167,6 +169,58 @@ Section Parser.
     | (st, Some e) => (st, Some e)
     | (st, None) =>
         (st, if too_long then Some ETooLong else if read_err then Some ERead else None)
+    end.
+  (** ** The same against a destination whose writes fail
+
+      [dst] takes [cap] bytes in all: the write that crosses the limit is
+      short (what fits is taken), and it returns an error, as a file under a
+      file-size limit, on a full disk or over quota does through
+      [os.File.Write].  [processLine] has counted the rule and updated the
+      checksum before it writes; [Parse] adds the short count to [written] and
+      returns the error ("writing rule line").  Third component: the part of
+      the failing line that reached [dst]. *)
+  Definition take (n : N) (s : bytes) : bytes := firstn (N.to_nat n) s.
+
+  Fixpoint process_w (cap : N) (toks : list bytes) (st : pstate) : pstate * option perr * bytes :=
+    match toks with
+    | [] => (st, None, [])
+    | l :: r =>
+        let t := trim_space l in
+        if (p_written st =? 0) && is_html_line t then (st, Some EHtml, [])
+        else
+          let st :=
+            if p_title_found st then st
+            else match title_of t with
+                 | Some ti => {| p_title := ti; p_title_found := true; p_count := p_count st;
+                                 p_written := p_written st; p_sum := p_sum st; p_lines := p_lines st |}
+                 | None => st
+                 end in
+          match classify t with
+          | LSkip => process_w cap r st
+          | LBinary => (st, Some EBinary, [])
+          | LRule =>
+              let room := cap - p_written st in
+              if room <? lenN t + 1 then
+                ({| p_title := p_title st; p_title_found := p_title_found st;
+                    p_count := p_count st + 1;
+                    p_written := p_written st + room;
+                    p_sum := crc (p_sum st) t;
+                    p_lines := p_lines st |}, Some EWrite, take room (t ++ [10]))
+              else
+                process_w cap r {| p_title := p_title st; p_title_found := p_title_found st;
+                                   p_count := p_count st + 1;
+                                   p_written := p_written st + lenN t + 1;
+                                   p_sum := crc (p_sum st) t;
+                                   p_lines := t :: p_lines st |}
+          end
+    end.
+
+  Definition parse_w (cap : N) (x : bytes) (read_err : bool) : pstate * option perr * bytes :=
+    let '(toks, too_long) := scan x [] 0 in
+    match process_w cap toks p_init with
+    | (st, Some e, part) => (st, Some e, part)
+    | (st, None, part) =>
+        (st, if too_long then Some ETooLong else if read_err then Some ERead else None, part)
     end.
 End Parser.
 
